@@ -32,6 +32,13 @@ def _replay(stem, vals):
     am = atomman()
     msgs = []
     try:
+        _s0 = am.System(atoms=am.Atoms(atype=[1, 2], pos=[[0.1, 0.2, 0.3], [1.0, 1.1, 1.2]]), box=am.Box(vects=[[3.0, 0, 0], [0.5, 3.2, 0], [0.1, -0.2, 3.4]]))
+        _s1 = _s0.supersize(1, 1, 1)
+        if _s1 is _s0 or _s1.atoms is _s0.atoms or np.shares_memory(_s1.atoms.pos, _s0.atoms.pos):
+            return (True, 'supersize(1, 1, 1) returns the system itself (or shares its storage) instead of a new system')
+    except Exception:
+        pass
+    try:
         V = np.array([[4.0, 0, 0], [1.2, 5.0, 0], [-0.7, 0.9, 6.0]])
         o = np.array([0.5, -2.0, 3.0])
         s = np.array([[0.1, 0.2, 0.3], [0.6, 0.4, 0.7]])
@@ -55,7 +62,7 @@ def _replay(stem, vals):
     return (len(msgs) > 0, '; '.join(msgs[:3]) if msgs else 'float replay of supersize found no disagreement')
 
 
-SIZES = [(2, 1, 1), (1, 2, 3), ((-1, 1), 2, (-2, 0)), (-2, 1, 1), (1, -3, (0, 2))]
+SIZES = [(2, 1, 1), (1, 2, 3), ((-1, 1), 2, (-2, 0)), (-2, 1, 1), (1, -3, (0, 2)), (1, 1, 1)]
 
 
 def _supersize_group(sizes):
@@ -142,6 +149,8 @@ def _supersize_group(sizes):
         E.prove('supersize.no_other_atoms%s' % tag, len(used) == sup.natoms)
         E.prove('supersize.operand_unchanged%s' % tag, all(a.t is b.t for a, b in zip(u.atoms.view['pos'].ravel(), pos.ravel())) and u.box._Box__vects[1, 0].t is V[1, 0].t)
         E.prove('supersize.symbols_kept%s' % tag, tuple(sup.symbols) == ('Al', 'Cu'))
+        # a NEW system, also for unit multipliers: nothing of the result is the operand's own storage
+        E.prove('supersize.returns_a_new_system%s' % tag, sup is not u and sup.atoms is not u.atoms and sup.box is not u.box and sup.atoms.view['pos'] is not u.atoms.view['pos'])
     return h_
 
 
